@@ -18,11 +18,13 @@ def one(m):
     res = dict(id=m["id"], why=m["why"], suite=None, checks={}, allow=m.get("allow", [0]))
     try:
         for (fn, old, new) in m["edits"]:
-            p = os.path.join(d, fn); s = open(p).read()
+            p = os.path.join(d, fn); s = open(p).read() if os.path.exists(p) else ""
             if old in ("__POOL__", "__STORE__"):
                 import alts_c
                 x, y = (alts_c.pool_region if old == "__POOL__" else alts_c.store_region)(s)
                 open(p, "w").write(s[:x] + new + "\n" + s[y:]); continue
+            if old is None:  # whole-file replacement
+                open(p, "w").write(new); continue
             if isinstance(old, tuple):
                 x, y = old
                 if y == "\x00EOF":
